@@ -7,6 +7,7 @@ import (
 	"os"
 
 	"verifharness/internal/c06"
+	"verifharness/internal/c14"
 	"verifharness/internal/c15"
 	"verifharness/internal/c16"
 	"verifharness/internal/c19"
@@ -17,6 +18,7 @@ type sub func(tier string, seed int64, outDir string) *common.Meta
 
 var subs = map[string]sub{
 	"c06": c06.Run,
+	"c14": c14.Run,
 	"c15": c15.Run,
 	"c16": c16.Run,
 	"c19": c19.Run,
